@@ -6,7 +6,7 @@ from .values import _byte_type
 from .sym import (TRUE, FALSE, RS, IS, zand, zor, znot, zimp, State, Frame, HeapLV)
 from .expr import ERR_TAG
 
-SPEC_FUNCS = ("zzArg", "zzRet", "zzSeq", "zzCalls", "zzStrIsBytes", "zzSameStr", "zzDisjoint", "zzDisjointStr", "zzOld", "zzImp", "zzForall", "zzExists", "zzResult", "zzIter", "zzFresh", "zzAlloc", "zzSameSlice", "zzNilErr", "zzLen")
+SPEC_FUNCS = ("zzRecv", "zzArg", "zzRet", "zzSeq", "zzCalls", "zzStrIsBytes", "zzSameStr", "zzDisjoint", "zzDisjointStr", "zzOld", "zzImp", "zzForall", "zzExists", "zzResult", "zzIter", "zzFresh", "zzAlloc", "zzSameSlice", "zzNilErr", "zzLen")
 
 
 class CallMixin:
@@ -328,7 +328,7 @@ class CallMixin:
             if isinstance(v, IfaceV):
                 return z3.UGE(v.oid, rid(base))
             raise Unsupported("fresh() of this value")
-        if name in ("zzArg", "zzRet", "zzSeq"):
+        if name in ("zzArg", "zzRet", "zzSeq", "zzRecv"):
             lit = args[0]["cv"]["v"]
             nm = bytes(lit).decode() if not isinstance(lit, str) else self._b64(lit).decode()
             if name == "zzSeq":
@@ -338,6 +338,9 @@ class CallMixin:
                 i = int(args[1]["cv"]["v"])
                 t = self.arg_types.get((nm, i))
                 prefix = "arg:%s:%d:" % (nm, i)
+            elif name == "zzRecv":
+                t = self.arg_types.get((nm, "recv"))
+                prefix = "recv:%s:" % nm
             else:
                 t = self.arg_types.get((nm, "ret"))
                 prefix = "ret:%s:" % nm
@@ -835,6 +838,16 @@ class CallMixin:
                     pass
         if argvals is not None and argtypes is not None and len(argvals) == len(argtypes):
             self.record_call_values(st, short, argvals, argtypes)
+        fun = e.get("Fun") or {}
+        if fun.get("k") == "SelectorExpr" and (fun.get("sel") or {}).get("kind") == "method" and not self.spec:
+            try:
+                rv = self.ev(fun["X"], st)
+                rt_ = self.T(fun["X"])
+                for k_, tm in enumerate(flatten(rv, rt_)):
+                    st.ghost["recv:%s:%d" % (short, k_)] = tm
+                self.arg_types[(short, "recv")] = rt_
+            except Unsupported:
+                pass
         self.trace_event(st, short)
         self.assumptions.add("call to %s: no contract; result unconstrained, assumed to terminate without panic and to write no caller-visible memory" % short)
         t = self.T(e) if "t" in e else None
@@ -930,6 +943,13 @@ class CallMixin:
                 return self.invoke(f, [rv] + args, st, e)
         sigd = sigt.under().d
         ptypes_ = [self.prog.types[p_["t"]] for p_ in sigd.get("params") or []]
+        if callee.endswith("context.(Context).Err") and not self.spec:
+            self.models_used.add("context.Context: Err() is non-nil once a receive from Done() has succeeded")
+            out = self.unknown_call(callee, e, st, evaluated=True, argvals=args, argtypes=ptypes_)
+            arr = st.ghost.get("ctxdone")
+            if arr is not None and isinstance(out, IfaceV):
+                self.assume(st, z3.Implies(z3.Select(arr, recv.oid), out.tag != rid(0)))
+            return out
         c = self.iface_contract(callee)
         if c is not None and "dispatch" in c.flags:
             # closed set of implementations: case split on the dynamic type, each case against that method's contract
@@ -1055,17 +1075,53 @@ class CallMixin:
         et = ct.elem()
         v = self.fresh_value(et, "recv")
         self.type_facts(st, v, et, param=False)
+        # context.Context: a receive from ctx.Done() means the context is cancelled, so ctx.Err() is non-nil afterwards
+        if ch.get("k") == "CallExpr" and (ch.get("callee") or "").endswith("context.(Context).Done") and not self.spec:
+            try:
+                cx = self.ev(ch["Fun"]["X"], st)
+                arr = st.ghost.get("ctxdone")
+                if arr is None:
+                    arr = z3.K(RS, FALSE)
+                st.ghost["ctxdone"] = z3.Store(arr, cx.oid, TRUE)
+            except (Unsupported, KeyError, AttributeError):
+                pass
+        inv = self.chan_invariant(et)
+        if inv is not None and not self.spec:
+            # declared channel invariant: every send site proves it, every receive may assume it
+            self.spec += 1
+            try:
+                self.assume(st, self.inline_call(inv, e, st, [v]))
+            finally:
+                self.spec -= 1
         self.trace_event(st, "chan.recv")
         if commaok:
             return v, self.fresh("recvok", z3.BoolSort())
         return v
 
+    def chan_invariant(self, et):
+        """Spec function zzChanInv_<ElemType>(v) of the element type's package, if the contract file declares one."""
+        nm = et.name() if et.k == "named" else None
+        if not nm or "." not in nm:
+            return None
+        pk, short = nm.rsplit(".", 1)
+        return self.prog.funcs.get(pk + ".zzChanInv_" + short)
+
     def chan_send(self, s, st):
+        val = None
         try:
             self.ev(s["Chan"], st)
-            self.ev(s["Value"], st)
+            val = self.ev(s["Value"], st)
         except Unsupported:
             pass
+        ct = self.T(s["Chan"])
+        inv = self.chan_invariant(ct.elem()) if ct.under().k == "chan" else None
+        if inv is not None and val is not None and not self.spec:
+            self.spec += 1
+            try:
+                g = self.inline_call(inv, s, st, [val])
+            finally:
+                self.spec -= 1
+            self.oblige(st, "chaninv", "send@%s" % self.site(s), g, s.get("ln"), "value sent on the channel satisfies the declared channel invariant")
         self.trace_event(st, "chan.send")
         return st
 
